@@ -278,11 +278,28 @@ def q_getitem(n, page_size, perm=None, with_index=True, parent=False, nan_rows=T
             m = ex.solver.model()
             viol = {'model': model_ints(m, allv), 'log': [(t, str(v)[:200]) for t, v in log], 'rect': False}
             # prefer a counterexample realisable with rectangles (exact predicate == bbox overlap) for the replay
-            ex.solver.add(*[I[i] == z3.And(z3.Not(nan[i]) if nan_rows else z3.BoolVal(True), hi[i][0] >= qx0, lo[i][0] <= qx1, hi[i][1] >= qy0, lo[i][1] <= qy1,
-                                           lo[i][0] < hi[i][0], lo[i][1] < hi[i][1]) for i in range(n)])
+            ex.solver.add(*[I[i] == z3.And(z3.Not(nan[i]) if nan_rows else z3.BoolVal(True), hi[i][0] >= qx0, lo[i][0] <= qx1, hi[i][1] >= qy0, lo[i][1] <= qy1)
+                            for i in range(n)])
+            ex.solver.add(*[z3.And(lo[i][0] < hi[i][0], lo[i][1] < hi[i][1]) for i in range(n)])      # proper rectangles
             ex.solver.add(qx0 < qx1, qy0 < qy1)
             if str(ex.solver.check()) == 'sat':
                 viol = {'model': model_ints(ex.solver.model(), allv), 'log': [(t, str(v)[:200]) for t, v in log], 'rect': True}
+                ex.solver.pop()
+                break
+            ex.solver.pop()
+            # otherwise one realisable with two-point multipoints on a diagonal of the bounding box (exact predicate: an end point lies in the box)
+            ex.solver.push()
+            ex.solver.add(*ex.pc)
+            ex.solver.add(z3.Not(z3.And(*conds)))
+            dg = [z3.Bool(f'diag{i}') for i in range(n)]
+
+            def inbox(x, y):
+                return z3.And(x >= qx0, x <= qx1, y >= qy0, y <= qy1)
+            ex.solver.add(*[I[i] == z3.And(z3.Not(nan[i]) if nan_rows else z3.BoolVal(True),
+                                           z3.If(dg[i], z3.Or(inbox(lo[i][0], lo[i][1]), inbox(hi[i][0], hi[i][1])),
+                                                 z3.Or(inbox(lo[i][0], hi[i][1]), inbox(hi[i][0], lo[i][1])))) for i in range(n)])
+            if str(ex.solver.check()) == 'sat':
+                viol = {'model': model_ints(ex.solver.model(), allv + dg), 'log': [(t, str(v)[:200]) for t, v in log], 'rect': 'diag'}
             ex.solver.pop()
             break
         ex.solver.pop()
@@ -334,38 +351,77 @@ def replay_get_bounds(pattern, with_index, scalar, model):
     return got_rows != want_rows, wit
 
 
-def replay_getitem(n, page_size, with_index, parent, model, nan_rows=True, rect=True):
+def replay_getitem(n, page_size, with_index, parent, model, nan_rows=True, rect=True, perm=None):
     """public API replay with rectangles (PolygonArray rows: the exact predicate is then the bbox overlap itself).
-    Only models with I_i == overlap_i (flag rect) can be replayed this way."""
-    import pandas as pd
-    import spatialpandas as sp
-    import spatialpandas.geometry as sg
+    Only models with I_i == overlap_i (flag rect) can be replayed this way.  The symbolic run leaves the curve order of the
+    index arbitrary; the replay looks for coordinates with the model's comparisons whose real Hilbert order shows the
+    problem (several monotone re-scalings per axis), and as a last resort attaches a real index built by the
+    repository's own build function (py_func) with the model's key order forced."""
     if not rect:
         return False, {'note': 'counterexample needs an exact predicate different from bbox overlap; no public-API replay built'}
     names = [f'lo{i}_{d}' for i in range(n) for d in range(2)] + [f'hi{i}_{d}' for i in range(n) for d in range(2)] + ['kx0', 'kx1', 'ky0', 'ky1']
     vals = sorted({model[k_] for k_ in names})
+    top = float(max(len(vals) - 1, 1))
+    scalings = [lambda r: r, lambda r: r * r, lambda r: top * top - (top - r) ** 2, lambda r: 2.0 ** r, lambda r: -(2.0 ** (top - r))]
+    attempts = [(fx, fy, None) for fx in scalings for fy in scalings] if with_index else [(scalings[0], scalings[0], None)]
+    if with_index and perm is not None and len(perm) == n and n > 1:
+        attempts.append((scalings[0], scalings[0], list(perm)))
+    last = None
+    for fx, fy, forced in attempts:
+        bad, wit = _replay_getitem_once(n, page_size, with_index, parent, model, nan_rows, vals, fx, fy, forced, diag=(rect == 'diag'))
+        last = wit
+        if bad:
+            return True, wit
+    return False, last
+
+
+def _same_rows(a, b):
+    fl = lambda x: [c for y in x for c in fl(y)] if isinstance(x, list) else [float(x)]    # noqa: E731
+    return fl(a) == fl(b)
+
+
+def _replay_getitem_once(n, page_size, with_index, parent, model, nan_rows, vals, fx, fy, forced, diag=False):
+    import pandas as pd
+    import spatialpandas as sp
+    import spatialpandas.geometry as sg
     rk = {v: float(i) for i, v in enumerate(vals)}
-    g = lambda k_: rk[model[k_]]    # noqa: E731
-    kx0, kx1, ky0, ky1 = g('kx0'), g('kx1'), g('ky0'), g('ky1')
+    gx = lambda k_: float(fx(rk[model[k_]]))    # noqa: E731
+    gy = lambda k_: float(fy(rk[model[k_]]))    # noqa: E731
+    kx0, kx1, ky0, ky1 = gx('kx0'), gx('kx1'), gy('ky0'), gy('ky1')
     box = (min(kx0, kx1), min(ky0, ky1), max(kx0, kx1), max(ky0, ky1))
     rows, exact = [], []
     for i in range(n):
         if nan_rows and model.get(f'nan{i}'):
             rows.append(None)
             continue
-        x0, y0, x1, y1 = g(f'lo{i}_0'), g(f'lo{i}_1'), g(f'hi{i}_0'), g(f'hi{i}_1')
+        x0, y0, x1, y1 = gx(f'lo{i}_0'), gy(f'lo{i}_1'), gx(f'hi{i}_0'), gy(f'hi{i}_1')
+        if diag:
+            pts = [x0, y0, x1, y1] if model.get(f'diag{i}') else [x0, y1, x1, y0]
+            rows.append(pts)
+            if any(box[0] <= px <= box[2] and box[1] <= py <= box[3] for px, py in (pts[:2], pts[2:])):
+                exact.append(i)
+            continue
         rows.append([[x0, y0, x1, y0, x1, y1, x0, y1, x0, y0]])
         if x1 >= box[0] and x0 <= box[2] and y1 >= box[1] and y0 <= box[3]:
             exact.append(i)
-    arr = sg.PolygonArray(rows, dtype='float64')
+    arr = (sg.MultiPointArray if diag else sg.PolygonArray)(rows, dtype='float64')
     if with_index:
         arr.build_sindex(page_size=page_size)
     wit = {'rows': rows, 'key': (kx0, kx1, ky0, ky1), 'with_index': with_index, 'page_size': page_size, 'parent': parent}
+
+    def force(a):
+        from . import c03
+        a._sindex = c03.real_tree(np.asarray(a.bounds, dtype='float64'), page_size, forced)
     try:
+        if forced is not None:
+            force(arr)
+            wit['index'] = f'real index built by the repository build function in python mode with the key order {forced} forced'
         df = sp.GeoDataFrame({'geometry': arr, 'id': list(range(n))}, index=pd.Index(['dup' if i in (0, n - 1) else f'r{i}' for i in range(n)]))
         if with_index:
             df.build_sindex(page_size=page_size)      # the frame may hold a copy of the array: build the index on the frame's own column
             assert df.geometry.array._sindex is not None
+            if forced is not None:
+                force(df.geometry.array)
         if parent:
             got = [int(x) for x in df.cx[kx0:kx1, ky0:ky1]['id']]
         else:
@@ -375,7 +431,7 @@ def replay_getitem(n, page_size, with_index, parent, model, nan_rows=True, rect=
             items = [None if sel[j] is None else sel[j].data.as_py() for j in range(len(sel))]
             for it_ in items:
                 for i in range(pos, n):
-                    if rows[i] is not None and it_ is not None and [list(map(float, r)) for r in rows[i]] == [list(map(float, r)) for r in it_]:
+                    if rows[i] is not None and it_ is not None and _same_rows(rows[i], it_):
                         got.append(i)
                         pos = i + 1
                         break
